@@ -56,3 +56,24 @@ def c01(a):
               "serialized events.")
     c.assumptions = TRUSTED
     return c.finish()
+
+
+@prop("C02")
+def c02(a):
+    c = Check("C02", a.tier, a.seed)
+    workdir("C02")
+    binary = build_harness()
+    if not a.replay:
+        c.add_mc(tlc_mc("MC_BigInt.tla", "MC_BigInt.cfg", os.path.join(workdir("C02", False), "mc"), workers=4))
+    drive_and_validate(c, a, binary, "c02", "Trace_C02.tla")
+    c.rule = ("Engine C: BigInt.tla (the limb arithmetic every conversion below uses) model-checked against native "
+              "arithmetic. Engine A: events ts_civil (Offset::to_datetime, Timestamp::to_zoned(fixed), and both inverse "
+              "routes), civil_ts, ts_new, ts_from (4 units), ts_views, validated by Trace_C02.tla which does every floor "
+              "division itself. quick = day boundary -1ns/0/+1ns for ~47k days (Jan 1 and Mar 1 of every year, +-1500 "
+              "days around the epoch, 800 days at each range end, seeded) x rotating offsets, seconds of days -1/0 and of "
+              "both range-end days, negative-fraction slices, limit timestamps x 16 offsets, constructor limit grids and "
+              "seeded tuples; thorough = every one of the 7.3M day boundaries, every second of the 4 days, 2M seeded "
+              "pairs. Non-trivial = class other than 'plain' (pre-epoch, negative fraction, limits, mixed-sign "
+              "constructor arguments, out-of-range inputs).")
+    c.assumptions = TRUSTED
+    return c.finish()
